@@ -75,6 +75,8 @@ def compare(cmp, impl, model):
     return "unknown comparator " + cmp
 
 CFG = dict(
+    src_tables=True,   # tools/gen_tables.py + Proofs/SrcTablesRoll.v: tables regenerated from the Rust source on every run
+    src_tables_proofs=["Proofs/SrcTablesRoll.vo"],   # the rolling-family part of the generated tables (min_periods shapes)
     bins=["c06"],
     imports=["Run.RunC01", "Run.RunC03", "Run.RunC04", "Run.RunC13"],
     rule="part=prefix: 40 (thorough 90) structured series of length 1..9 (14) with nulls x 2 random (window, explicit min_periods) x all "
